@@ -54,6 +54,8 @@ type Engine struct {
 	observes  []string
 	ufs       map[string]bool
 	ufApps    []ufApp
+	failSeq   int
+	realSeq   int // > 0: realisation run for the failure with this ordinal
 	obsVals   []obs
 	complete  bool // completion mode: never queue alternatives
 	globals   map[*ssa.Global]*Object
@@ -212,10 +214,8 @@ func (e *Engine) branch(c Value) bool {
 		ff := e.solver.check("(not " + c.S + ")")
 		switch {
 		case ft && ff:
-			if !e.complete {
-				alt := append(append(make([]bool, 0, len(e.dec)+1), e.dec...), false)
-				e.alts = append(e.alts, alt)
-			}
+			alt := append(append(make([]bool, 0, len(e.dec)+1), e.dec...), false)
+			e.alts = append(e.alts, alt)
 			e.dec = append(e.dec, true)
 			e.pos++
 			e.solver.send("(assert " + c.S + ")")
@@ -272,7 +272,7 @@ func (e *Engine) split(x Value, lo, hi int64) int64 {
 
 func (e *Engine) wantLabel(label string) (string, bool) {
 	// "C01,C07:name" restricts an assertion to the named properties
-	if i := strings.Index(label, ":"); i > 0 && label[0] == 'C' {
+	if i := strings.Index(label, ":"); i > 0 && label[0] == 'C' && e.spec.Property != "C00" {
 		for _, p := range strings.Split(label[:i], ",") {
 			if p == e.spec.Property {
 				return label, true
@@ -353,11 +353,19 @@ func (e *Engine) fail(kind, label, negCond string) {
 	e.failAt(kind, label, e.site(), negCond)
 }
 
+type needRealise struct {
+	f    Failure
+	cond string
+	seq  int
+}
+type realised struct{ model map[string]string }
+
 func (e *Engine) failAt(kind, label, site, negCond string) {
-	// output events matter to C17 only; stores by read-only operations to C18 (and the observers of C15/C16)
+	// output events matter to C17 only
 	if kind == "output" && e.spec.Property != "C17" && e.spec.Property != "C00" {
 		return
 	}
+	e.failSeq++
 	if !e.solver.check(negCond) {
 		return
 	}
@@ -384,26 +392,22 @@ func (e *Engine) failAt(kind, label, site, negCond string) {
 		cond = nc
 		break
 	}
+	if e.realSeq == 0 {
+		// first sight: the path is re-run in realisation mode (runPath) to obtain one fully concrete pre-state
+		panic(needRealise{f: f, cond: cond, seq: e.failSeq})
+	}
+	if e.failSeq != e.realSeq {
+		unsupported("realisation run diverged from the failing path (failure %d, expected %d)", e.failSeq, e.realSeq)
+	}
 	if cond != "" {
 		e.solver.send("(assert " + cond + ")")
 	}
-	func() {
-		defer func() {
-			if r := recover(); r != nil {
-				switch r.(type) {
-				case Infeasible, PanicEvt, stopPath:
-					f.Native = "UNREALISABLE: could not complete the pre-state"
-				default:
-					panic(r)
-				}
-			}
-		}()
-		e.completeThunks()
-	}()
-	_, f.Model = e.model("")
-	f.UF = e.ufTable(f.Model)
-	e.fails = append(e.fails, f)
-	panic(stopPath{})
+	e.completeThunks() // may die with Infeasible: the caller backtracks over the completion choices
+	ok, m := e.model("")
+	if !ok {
+		panic(Infeasible{})
+	}
+	panic(realised{model: m})
 }
 
 func (e *Engine) ufTable(m map[string]string) map[string][][3]string {
